@@ -208,7 +208,47 @@ def extra(rep, tier):
         rep.check(len(cl) >= 1, rule, "%s|nonempty" % name, "at least one class (request() falls back to classes[0])", "no classes: request() indexes classes[0]")
 
 
+def r_classing_complete(rep, prog):
+    """Every class the configuration can name in a request is handed to Classing::new: the class table is an unfiltered map over
+    self.classes whose element is (Class(c.id), c.count.to_count(cores))."""
+    rule = "R-CLASSING-COMPLETE"
+    rep.rule(rule, "ClassingConfig::classing passes every configured class (id, to_count) to Classing::new, none filtered out")
+    fn = "llfree_eval::classes::ClassingConfig::classing"
+    b = lib.need_body(prog, fn)
+    rep.saw(fn)
+    tm = T.Terms(b, prog)
+    news = lib.find_calls(b, "llfree::Classing::new")
+    if len(news) != 1:
+        rep.violation(rule, "classing|new", "expected one Classing::new call, found %d" % len(news), b.span)
+        return
+    arg = tm.operand(news[0][1]["args"][0])
+    calls = [x[1] for x in T.walk(arg) if x[0] == "call"]
+    allowed = ("slice::iter", "core::iter::traits::iterator::Iterator::map", "core::iter::traits::iterator::Iterator::collect",
+               "alloc::vec::Vec::leak", "core::ops::deref::Deref::deref", "<alloc::vec::Vec as core::ops::deref::Deref>::deref",
+               "alloc::vec::Vec::as_slice", "core::iter::traits::iterator::Iterator::enumerate")
+    extra = sorted({c for c in calls if c not in allowed and not c.endswith("::deref") and not c.endswith("::into_iter")})
+    over = any(x[0] == "f" and x[3] == "classes" for x in T.walk(arg))
+    rep.check(over and not extra, rule, "classing|all-classes", "the class table is a plain map over self.classes",
+              "the class table handed to Classing::new is narrowed or reordered by %s: a class that requests can name is not configured "
+              "in the allocator, which then rejects those requests" % (", ".join(extra) or "an unrecognised expression"), news[0][1]["span"])
+    ok_elem = False
+    for cb in prog.crate("llfree_eval").closures_of(fn):
+        ctm = T.Terms(cb, prog)
+        for bi, si, rv in lib.assignments_to_return(cb):
+            if si == "term":
+                continue
+            r = T.canon(ctm.rvalue(rv))
+            if r[0] == "agg" and r[1] == "tuple" and len(r[2]) == 2:
+                cls, cnt = r[2]
+                ok_elem = (cls[0] == "agg" and "Class" in cls[1] and cls[2] and cls[2][0][0] == "f" and cls[2][0][2] == "id"
+                           and cnt[0] == "call" and cnt[1] == CNT + "to_count" and cnt[2][0][0] == "f" and cnt[2][0][2] == "count"
+                           and cls[2][0][1] == cnt[2][0][1])
+    rep.check(ok_elem, rule, "classing|element", "element = (Class(c.id), c.count.to_count(cores)) of the same config c",
+              "the class table elements are not (Class(c.id), c.count.to_count(cores))", b.span)
+
+
 def run(rep, programs):
     prog = programs["eval"]
     r_slot_tables(rep, prog)
     r_request_element(rep, prog)
+    r_classing_complete(rep, prog)
